@@ -152,7 +152,7 @@ ADDENDA = {
     'C16': ('imported cache-key rule (C10): user-requested and recursive conversions are cached apart', ''),
     'C17': ('provenance of Literal values (TREE-LITERAL); no-__wrapped__ rule on the chain that creates the loaded function; return-case analysis of every statement handler of the tree transformers and attribute-store tracking of shortened user blocks (TREE-NONEMPTY)',
             ' No generated compound statement has an empty statement list: statement handlers never delete a statement, and a shortened user block embedded as a whole body gets a pass.'),
-    'C18': ('imported clean-copy rules of the template machinery (C17)', ''),
+    'C18': ('path condition of the replacement step excludes Store / Del contexts (ANF-TARGET); imported clean-copy rules of the template machinery (C17)', ''),
     'C19': ('value-type check of the type map; imported CFG rules (C05) and parameter / traversal rules (C08)', ''),
     'C20': ('reaching-definition check that the rendered feature collection is the unmodified parameter', ''),
 }
